@@ -12,7 +12,10 @@ NREG == 16
 EmptyHeap == [i \in 0..(NREG - 1) |-> Nil]
 
 NoObs == [x \in {} |-> 0]
-InitState == [heap |-> EmptyHeap, obs |-> NoObs]
+InitState == [heap |-> EmptyHeap, obs |-> NoObs,
+              ref |-> NoObs,        \* register of a CachedSource -> register holding the wrapped tree
+              cache |-> NoObs,      \* cache id -> {<<columns, final, "map" | "stream">>}
+              eqs |-> NoObs]        \* <<a, b>> -> last answer of a == b
 
 Put(f, k, v) == [x \in DOMAIN f \cup {k} |-> IF x = k THEN v ELSE f[x]]
 
@@ -21,37 +24,65 @@ ObsKey(r) ==
   CASE r.op = "source" -> <<r.r, "source">>
     [] r.op = "map" -> <<r.r, "map", r.columns>>
     [] r.op = "stream" -> <<r.r, "stream", r.columns, r.final>>
+    [] r.op = "hash" /\ r.h # "twox" -> <<r.r, "hash", r.h>>
     [] OTHER -> <<r.r, r.op>>
 
 Ok(r) == r.oc = "ok"
 
 -----------------------------------------------------------------------------
+(* The cache of a CachedSource, as far as direct calls on it determine it:   *)
+(* map(c) on a cold key fills it "by map", streaming fills it "by stream";  *)
+(* clones share the cache id.                                               *)
+CacheKeyOf(r) ==
+  IF r.op = "map" THEN <<r.columns, FALSE>> ELSE <<r.columns, r.final>>
+CacheFilled(cache, t, key) ==
+  /\ t.k = "cached" /\ t.cid \in DOMAIN cache
+  /\ \E e \in cache[t.cid] : <<e[1], e[2]>> = key
+CacheHow(cache, t, key) ==
+  IF ~CacheFilled(cache, t, key) THEN "cold"
+  ELSE (CHOOSE e \in cache[t.cid] : <<e[1], e[2]>> = key)[3]
+CacheAfter(cache, r, t) ==
+  IF r.op \notin {"map", "stream"} \/ t.k # "cached" \/ CacheFilled(cache, t, CacheKeyOf(r))
+    THEN cache
+  ELSE LET key == CacheKeyOf(r)
+           e == <<key[1], key[2], IF r.op = "map" THEN "map" ELSE "stream">>
+       IN [x \in DOMAIN cache \cup {t.cid} |->
+             IF x = t.cid THEN (IF x \in DOMAIN cache THEN cache[x] ELSE {}) \cup {e}
+             ELSE cache[x]]
+
 (* actions                                                                  *)
 Forget(obs, reg) == [k \in {x \in DOMAIN obs : x[1] # reg} |-> obs[k]]
+ForgetEq(eqs, reg) == [k \in {x \in DOMAIN eqs : x[1] # reg /\ x[2] # reg} |-> eqs[k]]
 
 NextState(r, st) ==
   CASE r.op = "begin" -> InitState
     [] r.op = "build" /\ Ok(r) ->
          [st EXCEPT !.heap[r.dst] = Close(r.tree, st.heap),
-                    !.obs = Forget(@, r.dst)]
+                    !.obs = Forget(@, r.dst), !.eqs = ForgetEq(@, r.dst)]
     [] r.op = "clone" /\ Ok(r) ->
          [st EXCEPT !.heap[r.dst] = st.heap[r.src],
-                    !.obs = Forget(@, r.dst)]
+                    !.obs = Forget(@, r.dst), !.eqs = ForgetEq(@, r.dst)]
     [] r.op = "replace" /\ Ok(r) ->
          [st EXCEPT !.heap[r.r].repls =
             Append(@, [s |-> r.s, e |-> r.e, c |-> r.c, n |-> r.n,
                        enf |-> r.enf, api |-> r.api]),
-                    !.obs = Forget(@, r.r)]
+                    !.obs = Forget(@, r.r), !.eqs = ForgetEq(@, r.r)]
     [] r.op = "add" /\ Ok(r) ->
          LET t == st.heap[r.r]
              a == Close(r.tree, st.heap)
-         IN [st EXCEPT !.obs = Forget(@, r.r), !.heap[r.r] =
+         IN [st EXCEPT !.obs = Forget(@, r.r), !.eqs = ForgetEq(@, r.r), !.heap[r.r] =
                IF "adds" \in DOMAIN t
                  THEN [t EXCEPT !.adds = Append(@, a)]
                  ELSE [x \in DOMAIN t \cup {"adds"} |->
                          IF x = "adds" THEN <<a>> ELSE t[x]]]
-    [] r.op \in {"source", "map", "stream"} /\ Ok(r) ->
-         [st EXCEPT !.obs = Put(@, ObsKey(r), r.out)]
+    [] r.op = "eq" /\ Ok(r) -> [st EXCEPT !.eqs = Put(@, <<r.a, r.b>>, r.out.eq)]
+    [] r.op \in {"buffer", "size"} /\ Ok(r) -> [st EXCEPT !.obs = Put(@, ObsKey(r), r.out)]
+    [] r.op = "law" /\ r.law = "ref" ->
+         [st EXCEPT !.ref = [x \in DOMAIN @ \cup ToSet(r.cached) |->
+                              IF x \in ToSet(r.cached) THEN r.pure ELSE @[x]]]
+    [] r.op \in {"source", "map", "stream", "hash"} /\ Ok(r) ->
+         [st EXCEPT !.obs = Put(@, ObsKey(r), r.out),
+                    !.cache = CacheAfter(@, r, st.heap[r.r])]
     [] OTHER -> st
 
 -----------------------------------------------------------------------------
@@ -192,6 +223,7 @@ LawChecks(r, st) ==
                  THEN {<<"C08", "via_enclosing_map">>} ELSE {})
     [] r.law = "replace_inner" /\ AsciiConsistent(st.heap[r.r]) ->
          {<<"C06", "replace_keeps_inner_attribution">>}
+    [] r.law = "edit_pair" -> {<<"C20", "different_observables_different_hash">>}
     [] OTHER -> {}
 
 LawHolds(c, r, st) ==
@@ -341,6 +373,148 @@ C12Holds(c, r) ==
               /\ r.out.oc[i] = r.base + r.lo + i - 1
 
 -----------------------------------------------------------------------------
+(* C10: a CachedSource (and its clones) answers like the wrapped source,    *)
+(* whatever was called before.  The wrapped tree is held, never cached, in  *)
+(* another register whose answers were recorded first.                      *)
+IsCachedCall(r, st) ==
+  /\ "r" \in DOMAIN r /\ r.r \in DOMAIN st.ref
+  /\ AsciiConsistent(st.heap[r.r]) /\ ~CachedUnderReplace(st.heap[r.r])
+
+PureOf(r, st, key) == st.obs[<<st.ref[r.r]>> \o key]
+HasPure(r, st, key) == (<<st.ref[r.r]>> \o key) \in DOMAIN st.obs
+
+(* the name of a C10 predicate says in which cache state the call was made  *)
+C10Name(base, r, st) ==
+  LET t == st.heap[r.r]
+      how == IF t.k = "cached" THEN CacheHow(st.cache, t, CacheKeyOf(r)) ELSE "parent"
+  IN CASE how = "cold" -> base \o "_cold"
+       [] how = "map" -> base \o "_filled_by_map"
+       [] how = "stream" -> base \o "_filled_by_stream"
+       [] OTHER -> base \o "_through_parent"
+
+C10Checks(r, st) ==
+  IF ~IsCachedCall(r, st) THEN {}
+  ELSE CASE r.op = "source" /\ HasPure(r, st, <<"source">>) -> {<<"C10", "source">>}
+         [] r.op = "buffer" /\ HasPure(r, st, <<"source">>) -> {<<"C10", "buffer">>}
+         [] r.op = "size" /\ HasPure(r, st, <<"source">>) -> {<<"C10", "size">>}
+         [] r.op = "map" /\ HasPure(r, st, <<"map", r.columns>>) ->
+              {<<"C10", C10Name("map", r, st)>>}
+         [] r.op = "stream" /\ ~r.final /\ HasPure(r, st, <<"stream", r.columns, FALSE>>) ->
+              {<<"C10", C10Name("stream", r, st)>>}
+         [] r.op = "hash" -> {<<"C10", "hash_stable">>}
+         [] OTHER -> {}
+
+C10Holds(c, r, st) ==
+  LET t == st.heap[r.r] IN
+  CASE c[2] = "source" -> r.out.t = PureOf(r, st, <<"source">>).t
+    [] c[2] = "buffer" -> r.out.b = PureOf(r, st, <<"source">>).t
+    [] c[2] = "size" -> r.out.n = Len(PureOf(r, st, <<"source">>).t)
+    [] c[2] = "hash_stable" ->
+         \A k \in DOMAIN st.obs :
+           (Len(k) = 2 /\ k[2] = "hash" /\ k[1] \in DOMAIN st.ref /\ st.ref[k[1]] = st.ref[r.r]
+            /\ st.heap[k[1]] = t)
+             => st.obs[k] = r.out
+    [] r.op = "map" ->
+         LET pure == PureOf(r, st, <<"map", r.columns>>).map
+             text == TextOf(t)
+         IN IF r.columns
+              THEN SameCore(ByteAttrsOfOptMap(r.out.map, text), ByteAttrsOfOptMap(pure, text))
+              ELSE LineAttrsOfOptMap(r.out.map, text) = LineAttrsOfOptMap(pure, text)
+    [] r.op = "stream" ->
+         LET pure == PureOf(r, st, <<"stream", r.columns, FALSE>>)
+             mine == StreamChunks(r.out.ev)
+             theirs == StreamChunks(pure.ev)
+         IN /\ StreamText(mine) = StreamText(theirs)
+            /\ r.out.end = pure.end
+            /\ IF r.columns
+                 THEN SameCore(ByteAttrsOfStream(mine), ByteAttrsOfStream(theirs))
+                 ELSE LineAttrsOfStream(mine) = LineAttrsOfStream(theirs)
+
+-----------------------------------------------------------------------------
+(* C14: equality, hashing and cloning are coherent and do not depend on     *)
+(* what was observed before.  C20: observably different trees hash          *)
+(* differently, reproducibly.                                               *)
+HasObs(st, key) == key \in DOMAIN st.obs
+
+SameAnswer(op, r, old) ==
+  CASE op = "source" -> r.out.t = old.t
+    [] op = "buffer" -> r.out.b = old.b
+    [] op = "size" -> r.out.n = old.n
+    [] op = "hash" -> r.out = old
+    [] op = "stream" ->
+         LET mine == StreamChunks(r.out.ev)
+             theirs == StreamChunks(old.ev)
+         IN /\ StreamText(mine) = StreamText(theirs)
+            /\ r.out.end = old.end
+            /\ IF r.final THEN TRUE
+               ELSE IF r.columns
+                 THEN SameCore(ByteAttrsOfStream(mine), ByteAttrsOfStream(theirs))
+                 ELSE LineAttrsOfStream(mine) = LineAttrsOfStream(theirs)
+
+C14Checks(r, st) ==
+  CASE r.op = "eq" ->
+         (IF <<r.b, r.a>> \in DOMAIN st.eqs THEN {<<"C14", "eq_symmetric">>} ELSE {})
+         \cup (IF <<r.a, r.b>> \in DOMAIN st.eqs THEN {<<"C14", "eq_stable">>} ELSE {})
+         \cup (IF Strip(st.heap[r.a]) = Strip(st.heap[r.b])
+                THEN {<<"C14", "same_construction_equal">>} ELSE {})
+         \cup (IF r.out.typed # <<>> THEN {<<"C14", "typed_agrees_with_dyn">>} ELSE {})
+         \cup (IF r.out.eq /\ HasObs(st, <<r.a, "hash">>) /\ HasObs(st, <<r.b, "hash">>)
+                THEN {<<"C14", "equal_implies_same_hash">>} ELSE {})
+         \cup (IF r.out.eq /\ HasObs(st, <<r.a, "source">>) /\ HasObs(st, <<r.b, "source">>)
+                THEN {<<"C14", "equal_implies_same_answers">>} ELSE {})
+    [] r.op \in {"source", "buffer", "size", "hash", "map", "stream"} /\ HasObs(st, ObsKey(r))
+         /\ r.r \notin DOMAIN st.ref ->
+         {<<"C14", "observer_repeatable">>}
+    [] OTHER -> {}
+
+C14Holds(c, r, st) ==
+  CASE c[2] = "eq_symmetric" -> r.out.eq = st.eqs[<<r.b, r.a>>]
+    [] c[2] = "eq_stable" -> r.out.eq = st.eqs[<<r.a, r.b>>]
+    [] c[2] = "same_construction_equal" -> r.out.eq
+    [] c[2] = "typed_agrees_with_dyn" -> r.out.typed[1] = r.out.eq
+    [] c[2] = "equal_implies_same_hash" ->
+         st.obs[<<r.a, "hash">>] = st.obs[<<r.b, "hash">>]
+    [] c[2] = "equal_implies_same_answers" ->
+         /\ st.obs[<<r.a, "source">>].t = st.obs[<<r.b, "source">>].t
+         /\ \A col \in BOOLEAN :
+              (HasObs(st, <<r.a, "map", col>>) /\ HasObs(st, <<r.b, "map", col>>)) =>
+                LET text == st.obs[<<r.a, "source">>].t
+                    ma == st.obs[<<r.a, "map", col>>].map
+                    mb == st.obs[<<r.b, "map", col>>].map
+                IN IF col THEN SameFull(ByteAttrsOfOptMap(ma, text), ByteAttrsOfOptMap(mb, text))
+                   ELSE LineAttrsOfOptMap(ma, text) = LineAttrsOfOptMap(mb, text)
+    [] c[2] = "observer_repeatable" ->
+         IF r.op = "map"
+           THEN LET text == TextOf(st.heap[r.r])
+                    old == st.obs[ObsKey(r)].map
+                IN IF r.columns
+                     THEN SameCore(ByteAttrsOfOptMap(r.out.map, text), ByteAttrsOfOptMap(old, text))
+                     ELSE LineAttrsOfOptMap(r.out.map, text) = LineAttrsOfOptMap(old, text)
+           ELSE SameAnswer(r.op, r, st.obs[ObsKey(r)])
+
+MapsDiffer(st, a, b, col) ==
+  HasObs(st, <<a, "map", col>>) /\ HasObs(st, <<b, "map", col>>)
+  /\ st.obs[<<a, "map", col>>].map # st.obs[<<b, "map", col>>].map
+
+ObservablyDifferent(st, a, b) ==
+  \/ (HasObs(st, <<a, "source">>) /\ HasObs(st, <<b, "source">>)
+      /\ st.obs[<<a, "source">>].t # st.obs[<<b, "source">>].t)
+  \/ (HasObs(st, <<a, "buffer">>) /\ HasObs(st, <<b, "buffer">>)
+      /\ st.obs[<<a, "buffer">>].b # st.obs[<<b, "buffer">>].b)
+  \/ MapsDiffer(st, a, b, TRUE) \/ MapsDiffer(st, a, b, FALSE)
+
+C20Holds(c, r, st) ==
+  CASE c[2] = "different_observables_different_hash" ->
+         ObservablyDifferent(st, r.a, r.b) =>
+           /\ st.obs[<<r.a, "hash">>] # st.obs[<<r.b, "hash">>]
+           /\ ~st.eqs[<<r.a, r.b>>]
+    [] c[2] = "hash_reproducible" ->
+         /\ r.out.local = r.out.thread /\ r.out.local = r.out.process
+         /\ \A k \in DOMAIN st.obs :
+              (Len(k) = 2 /\ k[2] = "hash" /\ Strip(st.heap[k[1]]) = Strip(Close(r.tree, st.heap)))
+                => st.obs[k].hex = r.out.local
+
+-----------------------------------------------------------------------------
 (* which predicates apply to a record                                       *)
 TreeOf(r, st) == st.heap[r.r]
 
@@ -349,7 +523,7 @@ Checks(r, st) ==
   ELSE IF r.op = "died" THEN {<<"C17", "no_abort_or_hang">>}
   ELSE IF r.oc = "harness" THEN {<<"TOOL", "harness_error">>}
   ELSE IF ~Ok(r) THEN {<<"C17", "no_panic">>}
-  ELSE {<<"C17", "no_panic">>} \cup
+  ELSE {<<"C17", "no_panic">>} \cup C10Checks(r, st) \cup C14Checks(r, st) \cup
     CASE r.op = "source" ->
            {<<"C07", "source_is_text">>} \cup
            (IF "replace" \in Kinds(TreeOf(r, st))
@@ -410,6 +584,7 @@ Checks(r, st) ==
               \cup (IF r.out.map = <<>> /\ C04Domain(TreeOf(r, st))
                       THEN {<<"C04", "no_map_means_no_original">>} ELSE {})
       [] r.op = "law" -> LawChecks(r, st)
+      [] r.op = "hash_tree" -> {<<"C20", "hash_reproducible">>}
       [] r.op = "codec" ->
            IF CodecDomain(SegsOf(r.segs))
              THEN {<<"C12", "decode_matches_format">>, <<"C12", "roundtrip_resolves_same">>,
@@ -509,6 +684,9 @@ Holds(c, r, st) ==
          IN LineAttrsOfOptMap(r.out.map, StreamText(chunks)) = LineAttrsOfStream(chunks)
     [] c[1] \in {"C13", "C06", "C08"} /\ r.op = "law" -> LawHolds(c, r, st)
     [] c[1] = "C04" -> C04Holds(c, r, t)
+    [] c[1] = "C10" -> C10Holds(c, r, st)
+    [] c[1] = "C14" -> C14Holds(c, r, st)
+    [] c[1] = "C20" -> C20Holds(c, r, st)
     [] c[1] = "C12" -> C12Holds(c, r)
     [] c = <<"C09", "compose_columns">> -> ComposeColumnsOK(t, r.out.map)
     [] c = <<"C09", "compose_lines">> -> ComposeLinesOK(t, r.out.map)
@@ -538,6 +716,30 @@ KF(c, r, st) ==
          IN IF CachedBeneathReplace(TreeOf(r, st))
                /\ OnlyColumnsDiffer(ByteAttrsOfOptMap(r.out.map, StreamText(chunks)),
                                     ByteAttrsOfStream(chunks))
+              THEN "cached-beneath-replace-column" ELSE ""
+    [] c = <<"C14", "equal_implies_same_answers">> ->
+         LET text == st.obs[<<r.a, "source">>].t
+         IN IF /\ CachedBeneathReplace(st.heap[r.a])
+               /\ st.obs[<<r.a, "source">>].t = st.obs[<<r.b, "source">>].t
+               /\ (HasObs(st, <<r.a, "map", FALSE>>) /\ HasObs(st, <<r.b, "map", FALSE>>)) =>
+                    LineAttrsOfOptMap(st.obs[<<r.a, "map", FALSE>>].map, text)
+                      = LineAttrsOfOptMap(st.obs[<<r.b, "map", FALSE>>].map, text)
+               /\ (HasObs(st, <<r.a, "map", TRUE>>) /\ HasObs(st, <<r.b, "map", TRUE>>)) =>
+                    OnlyColumnsDiffer(ByteAttrsOfOptMap(st.obs[<<r.a, "map", TRUE>>].map, text),
+                                      ByteAttrsOfOptMap(st.obs[<<r.b, "map", TRUE>>].map, text))
+              THEN "cached-beneath-replace-column" ELSE ""
+    [] c = <<"C14", "observer_repeatable">> ->
+         LET t == st.heap[r.r]
+             text == TextOf(t)
+         IN IF CachedBeneathReplace(t) /\ r.op \in {"map", "stream"} /\ r.columns
+               /\ (r.op = "map" =>
+                      OnlyColumnsDiffer(ByteAttrsOfOptMap(r.out.map, text),
+                                        ByteAttrsOfOptMap(st.obs[ObsKey(r)].map, text)))
+               /\ (r.op = "stream" =>
+                      /\ StreamText(StreamChunks(r.out.ev)) = StreamText(StreamChunks(st.obs[ObsKey(r)].ev))
+                      /\ r.out.end = st.obs[ObsKey(r)].end
+                      /\ OnlyColumnsDiffer(ByteAttrsOfStream(StreamChunks(r.out.ev)),
+                                           ByteAttrsOfStream(StreamChunks(st.obs[ObsKey(r)].ev))))
               THEN "cached-beneath-replace-column" ELSE ""
     [] c = <<"C13", "same_attribution_columns">> ->
          LET text == Seen(st, r.a, "source").t
